@@ -485,7 +485,20 @@ fn child(args: &[String]) -> ! {
     if let Some(ms) = s.timeout_ms {
         // an application typically calls cleanup() on a timer: once right after the traffic (nothing is due yet) ...
         let _ = util::guarded(|| rx.cleanup(now));
-        std::thread::sleep(Duration::from_millis(ms * 12 + 20));
+        if idx % 3 == 1 {
+            // ... then, in one scenario out of three, on a period three times shorter than the timeouts for the whole
+            // silence (housekeeping itself is not activity: it must not keep idle sessions alive) ...
+            let period = Duration::from_micros(ms * 1000 / 3).max(Duration::from_millis(1));
+            let t_start = std::time::Instant::now();
+            let mut k = 0u32;
+            while t_start.elapsed() < Duration::from_millis(ms * 12 + 20) {
+                std::thread::sleep(period);
+                k += 1;
+                let _ = util::guarded(|| rx.cleanup(now + period * k));
+            }
+        } else {
+            std::thread::sleep(Duration::from_millis(ms * 12 + 20));
+        }
         // ... and again after the timeouts. Sessions kept alive: every other scenario sees one unrelated packet
         // before the second cleanup, the others see no packet at all between the two cleanups
         if s.session_alive && idx % 2 == 0 {
@@ -501,7 +514,7 @@ fn child(args: &[String]) -> ! {
         let live_after = alloc::live() - baseline;
         released = json!({"sessions": st.len(), "objects": objs, "fdt_receivers": fdtr, "live_after": live_after});
         if !st.is_empty() && !s.session_alive {
-            add("idle_sessions_not_released", format!("{} session(s) still present {} ms after the last packet (session_timeout {} ms) and a cleanup", st.len(), ms * 12 + 20, ms), json!(null));
+            add("idle_sessions_not_released", format!("{} session(s) still present {} ms after the last packet (session_timeout {} ms) and {}", st.len(), ms * 12 + 20, ms, if idx % 3 == 1 { "a cleanup every third of the timeout" } else { "a cleanup" }), json!({"periodic_cleanup": idx % 3 == 1}));
         }
         if objs > 0 || (!s.session_alive && rx.nb_objects() > 0) {
             add("stalled_objects_not_released", format!("{} object(s) still held after the object timeout and a cleanup", objs.max(rx.nb_objects())), json!(null));
